@@ -318,6 +318,34 @@ CHECKS = [
      "trigger (same decision as the float comparison); the number of extra support points is taken from the implementation's "
      "own plain support (C15); thresholds compared as sorted multisets to 1e-9, band values to 1e-12.",
      "Lean 4 proof about a hand-written model + differential correspondence check", "DESIGN.md §5 C16"),
+ chk("C12",
+     "Lean theorems about the model of GroupScores (pairs (score, group code); joint sort; explicit cache state machine; "
+     "sampling on a scripted RNG reusing the C11 model of _sample_indices): C12_sort_perm (+_sorted_flag, _from_labels: the "
+     "held arrays are a permutation of the input pairs of each class, sorted by score - every score keeps its label), C12_swap "
+     "(pairs move to the other class with their labels, flags flipped, swap.swap = id for the default group list), C12_getitem "
+     "(gs[g] = exactly the scores carrying g, with multiplicity, sorted - the filter of a sorted list is sorted, so is_sorted=True "
+     "is justified; ValueError for unlisted groups), C12_group_cm (= counting on the filtered data, by C01), C12_partition "
+     "(+_default, _swap, C12_sample_partition: sum over groups = overall matrix at every threshold incl. +-inf when the group "
+     "list is duplicate-free and contains every label; counterexamples when a label is missing or a name repeated), C12_cache "
+     "(+_fresh, _history, _hit: over ANY sequence of gs[g] / group_cm / group_<rate> / cm queries every output equals the "
+     "answer computed from the data alone and every cached entry equals the fresh one), C12_groupwise / C12_group_rate, and for "
+     "EVERY in-support RNG script: C12_sample_attached (every sampled (score, label) pair is a pair of the source's same class, "
+     "all 9 modes), C12_sample_inv (samples sorted, incl. the is_sorted=True single-pass path), C12_by_group_counts "
+     "(replacement + by_group, duplicate-free list: each group keeps its number of samples; unlisted labels are not sampled), "
+     "C12_names, C12_dynamic, C12_errors, C12_strat_requests (None draws the class split of the whole object, by_label keeps "
+     "it, by_group draws it inside each listed group in order), C12_spec_* (the executable clauses hold of the model). Tied to "
+     "/repo by building the real object (constructor, from_labels, is_sorted=True), sending input and observed arrays to the "
+     "model, evaluating the Lean predicates on the implementation's own arrays / per-group matrices / samples / request traces, "
+     "comparing request traces exactly and samples exactly (up to the order inside tied blocks after an argsort), histories of "
+     "cached queries against fresh objects and the Lean state machine, the 12 group_* metrics and groupwise(str/callable) "
+     "against independently filtered Scores objects, a pass with the real global RNG, error branches, source unchanged.",
+     BASE_NOTE + "np.argsort is not stable: statements about the order inside tied blocks are up to permutation. Group names are "
+     "mapped to Nat codes by the harness (sort order preserved); label dtypes are not modelled. 'Stratifying by group preserves "
+     "each group's sample count' is read for replacement sampling (single-pass sizes vary by design; its requests are covered by "
+     "C12_strat_requests). swap() does not forward group_names (modelled as coded). by_group sampling reads per-group objects "
+     "through the cache; the model uses the fresh ones (equal by C12_cache).",
+     "Lean 4 proof about a hand-written model with a scripted RNG and an explicit cache + differential correspondence check",
+     "DESIGN.md §5 C12"),
 ]
 
 ALL = [f"C{i:02d}" for i in range(1, 21)]
